@@ -55,7 +55,7 @@ def scenario(draw):
     for _ in range(draw(st.integers(0, 4))):
         faults[str(draw(st.integers(0, 10)))] = draw(st.sampled_from(['garbage', 'garbage-joined', 'late', 'silent', 'close-before', 'close-inside', 'close-after', 'chunk1', 'chunk3']))
     return {'kind': 'scenario', 'io': kind, 'callers': callers, 'faults': faults, 'refuse': draw(st.sampled_from([0, 0, 1, 3])),
-            'wait_before': draw(st.sampled_from([WAIT_BEFORE, WAIT_BEFORE, 0])),     # (0 is the default of the communicators)
+            'wait_before': draw(st.sampled_from([WAIT_BEFORE, WAIT_BEFORE, 0])), 'raising_cb': draw(st.integers(0, 3)) == 0,     # (0 is the default of the communicators)
             'banner': draw(st.booleans()), 'eol': draw(st.sampled_from(['\n', '\n', '\r\n'])), 'ident': draw(st.integers(0, 2)) == 0, 'connect_delay': draw(st.sampled_from([0, 0, 0.05])), 'poller': draw(st.sampled_from(['model', 'real'])), 'schedule': draw(st.lists(st.integers(0, 4), min_size=10, max_size=200))}
 
 
@@ -223,6 +223,11 @@ def run(case, preempt=None):
         io = cls('io', L(), dict(cfg_io), srv)
         io.earlyInit()
         out['io'] = io
+        if case.get('raising_cb'):
+            # a callback registered before the others fails (it is dropped then): the others run nevertheless
+            def boom():
+                raise RuntimeError('reconnect callback fails')
+            io.registerReconnectCallback('0boom', boom)
         for name in ('a', 'b'):
             def cb(name=name):
                 out['callbacks'][name] += 1
